@@ -69,6 +69,14 @@ static unsigned verif_max_read(void) { return OUTPUT_BUFFER_SIZE; }
 static int g_code, g_sym;
 static unsigned code_walks, off_walks;
 
+/* commands remain in the block (block_remaining >= 1): the block header reader must not be entered */
+static int start_new_block(LHANewDecoder *decoder)
+{
+	(void) decoder;
+	CHECK(0, "C01 H01.cmd: no block header is read while commands remain in the block");
+	return 0;
+}
+
 static int read_from_tree(BitStreamReader *reader, TreeElement *tree)
 {
 	(void) reader;
